@@ -1179,6 +1179,15 @@ fn generate(ctx: &Ctx) {
   let all_scopes = [0u8, 1, 2, 3, 4, 5];
   let all_rels = [1u8, 2, 3, 4, 5];
   let two = [0u8, 1, 2]; // VerificationMethod, authentication, assertionMethod
+  if let Ok(pr) = std::env::var("C04_PROBE") {
+    // PROBE-BEGIN (development only)
+    let nums = |k: &str| -> Vec<u8> { pr.split(';').find_map(|kv| kv.strip_prefix(k)).map(|v| v.split(',').filter_map(|x| x.parse().ok()).collect()).unwrap_or_default() };
+    let t = std::time::Instant::now();
+    run_part(ctx, "probe", 9, universe(&nums("inits="), &nums("mids="), &[], &two, &nums("rels="), &nums("sids="), false), None);
+    eprintln!("probe wall {:.1}s", t.elapsed().as_secs_f64());
+    return;
+    // PROBE-END
+  }
   if ctx.quick() {
     // (A) 3 method ids x 2 relationships x 2 services to closure; the five plain start documents; one body with a
     //     custom property (its successors are cut while the serde defect of such methods exists)
